@@ -27,7 +27,7 @@ func init() {
 	Register(&PropDef{
 		ID:    "C20",
 		Title: "No-Response suppression follows RFC 7967 for every value and code",
-		Rule: "run index i < 262144 enumerates (transport/type, option value 0..255 = every value the one-byte option can carry, response code 0..255) completely; each run sends the request (and, on datagram transports, a network duplicate of it) to a real connection whose handler calls SetResponse(code); " +
+		Rule: "run index i < 262144 enumerates (transport/type, option value 0..255 = every value the one-byte option can carry, response code 0..255) completely; the options that accompany No-Response (none, lower-numbered, unknown elective ones numbered above 258, both) rotate over the cells so that every (value, code) pair meets all four; each run sends the request (and, on datagram transports, a network duplicate of it) to a real connection whose handler calls SetResponse(code); " +
 			"non-trivial = the option suppresses at least one class (value has bit 2, 8 or 16); distinct = distinct (transport, value, code) log hash",
 		Scenarios: []Scenario{{Name: "S-NORESP", Weight: 1, Run: c20Run}},
 		Quick:     c20Table,
@@ -57,6 +57,9 @@ func c20Run(e *Env) {
 	if kind == 1 {
 		reqType = TNON
 	}
+	// which other options accompany No-Response: rotated over the table cells (every (value, code) pair meets all
+	// four companies across the four transports); runs beyond the table add a random offset
+	company := (kind + int(v) + int(code) + t.Choose(4)) % 4
 	class := code >> 5
 	suppressed := (class == 2 && v&2 != 0) || (class == 4 && v&8 != 0) || (class == 5 && v&16 != 0)
 	if v&(2|8|16) != 0 {
@@ -96,7 +99,7 @@ func c20Run(e *Env) {
 	e.Real("net/responsewriter", "message/noresponse")
 	e.Wait()
 	w.Pump()
-	e.Logf("case transport=%s type=%d no-response=%d code=%d.%02d (class %d) -> suppressed=%v", tr, reqType, v, code>>5, code&31, class, suppressed)
+	e.Logf("case transport=%s type=%d no-response=%d code=%d.%02d (class %d) company=%d -> suppressed=%v", tr, reqType, v, code>>5, code&31, class, company, suppressed)
 
 	var wire []*WMsg
 	w.OnRecv = func(m *WMsg) {
@@ -109,7 +112,16 @@ func c20Run(e *Env) {
 			w.Queue(&WMsg{Type: TACK, Code: 0, MID: m.MID}, "ack-of-response")
 		}
 	}
-	req := &WMsg{Type: reqType, Code: 1, MID: 7777, Token: token, Opts: []WOpt{{Num: OptURIPath, Val: []byte("x")}, UintOpt(OptNoResponse, v)}}
+	req := &WMsg{Type: reqType, Code: 1, MID: 7777, Token: token, Opts: []WOpt{{Num: OptURIPath, Val: []byte("x")}}}
+	if company&1 != 0 {
+		req.Opts = append(req.Opts, WOpt{Num: OptURIQuery, Val: []byte("a=b")}, WOpt{Num: 60, Val: []byte{7}}) // Uri-Query, Size1
+	}
+	req.Opts = append(req.Opts, UintOpt(OptNoResponse, v))
+	if company&2 != 0 {
+		// elective options the library does not know, numbered above No-Response (vendor / experimental range)
+		req.Opts = append(req.Opts, WOpt{Num: 2050, Val: []byte{1, 2}}, WOpt{Num: 65000, Val: []byte("z")})
+	}
+	e.Probe(fmt.Sprintf("company.%d", company))
 	copies := 1
 	if IsDatagram(tr) {
 		copies = 2
